@@ -34,6 +34,7 @@ G0 == [gc      |-> [c \in Conns |-> Conn0],
        arrMb   |-> {},        \* [app,mbox,side,added,mood,k] first arrival at a live mailbox
        lastOk  |-> {},        \* [app,mbox,t] last successful claim/allocate/open/add
        lastTry |-> {},        \* [app,mbox,t] last command addressed at it
+       lastSub |-> {},        \* [app,mbox,t] last instant at which it was seen to have a subscriber
        crashed |-> FALSE,     \* some CrashIn* happened in this history
        up      |-> FALSE,
        refused |-> {},        \* connections that were sent a protocol error in their current life
@@ -195,9 +196,13 @@ GNext(g, o) ==
       lastTry2 == {x \in {IF Subscribers(g, y.app, y.mbox) # {} /\ y.t < t THEN [y EXCEPT !.t = t] ELSE y
                            : y \in Stamp(g.lastTry, IsCmd(o))}
                    : HasMb(d2, x.app, x.mbox)}
+      \* mailboxes that have a subscriber when this step begins: still subscribed at instant t
+      subNow == {[app |-> g.gc[x].app, mbox |-> g.gc[x].mboxId, t |-> t] : x \in {y \in Conns : g.gc[y].held}}
+      lastSub2 == {x \in {y \in g.lastSub : ~(\E z \in subNow : z.app = y.app /\ z.mbox = y.mbox)} \cup subNow
+                   : HasMb(d2, x.app, x.mbox)}
       up2 == IF e.k = "Start" THEN TRUE ELSE IF Restarting(o) THEN FALSE ELSE g.up
   IN [gc |-> gc2, added |-> added2, seen |-> seen2, told |-> told2, used |-> used2,
-      arrNp |-> arrNp2, arrMb |-> arrMb2, lastOk |-> lastOk2, lastTry |-> lastTry2,
+      arrNp |-> arrNp2, arrMb |-> arrMb2, lastOk |-> lastOk2, lastTry |-> lastTry2, lastSub |-> lastSub2,
       crashed |-> g.crashed \/ e.k \in {"CrashInCmd", "CrashInSweep"},
       up |-> up2,
       upSince |-> IF e.k = "Start" THEN t ELSE g.upSince,
@@ -379,6 +384,7 @@ CloseId(g, o) == IF o.e.m.mailbox # ABSENT THEN o.e.m.mailbox ELSE g.gc[o.e.c].m
 C08ante(g, o) ==
   LET cn == g.gc[o.e.c]  i == CloseId(g, o)  rows == MbSides(o.db, i) IN
   /\ IsCmd(o) /\ PErrOf(g, o) = ABSENT /\ CmdIs(o, "close")     \* (an internal failure is a close that does not complete)
+  /\ o.e.m.mood \notin BadMoods
   /\ Cardinality({r.side : r \in rows} \cup {cn.side}) <= 2
   /\ (MbAny(o.db, i) = {} \/ HasMb(o.db, cn.app, i))
 C08a(g, o, g2) ==   \* close completes
@@ -442,7 +448,7 @@ WellFormed(d) ==
 C10a(g, o, g2) == WellFormed(o.db2) /\ \A k \in DOMAIN o.tr : WellFormed(o.tr[k].db)
 C10b(g, o, g2) == (o.e.k = "Start") => o.err = ABSENT
 \* after a crash nothing fails internally
-C10c(g, o, g2) == g.crashed => o.err \in {ABSENT, "crash"}
+C10c(g, o, g2) == (g.crashed /\ o.e.m.mood \notin BadMoods) => o.err \in {ABSENT, "crash"}
 
 (***************************************************************************)
 (* C12  expiry never removes a channel that is active or has a subscriber  *)
@@ -456,6 +462,14 @@ Channel(d, a, i) ==
 C12a(g, o, g2) ==
   SweepLike(o) => \A r \in o.db.mb :
      Protected(g, o, r.app, r.id) => Channel(o.db2, r.app, r.id) = Channel(o.db, r.app, r.id)
+\* "a client may be away for at least the expiration time minus one sweep period": a mailbox
+\* that still had a subscriber less than EXP - PERIOD ago survives the sweep (sweeps re-stamp
+\* subscribed mailboxes every PERIOD; not claimed for histories with a failed sweep)
+C12c(g, o, g2) ==
+  (SweepLike(o) /\ ~g.faulted /\ EXP > PERIOD) => \A r \in o.db.mb :
+     (\E x \in g.lastSub : x.app = r.app /\ x.mbox = r.id /\ o.now - x.t < EXP - PERIOD)
+        => Channel(o.db2, r.app, r.id) = Channel(o.db, r.app, r.id)
+
 \* nothing but sweeps, closes and releases ever removes a channel's rows:
 \* connecting, disconnecting, the passing of time and stopping the server
 \* lose nothing (activity stamps apart)
@@ -565,8 +579,9 @@ C17e(g, o, g2) ==   \* a malformed / out-of-order command: one error, no effect
      /\ Len(o.out) = (IF o.e.m.type = ABSENT THEN 1 ELSE 2)
      /\ o.db2 = o.db /\ UBagOf(o.udb2) = UBagOf(o.udb) /\ o.tr = <<>>
      /\ o.err = ABSENT
-C17f(g, o, g2) ==   \* no handler fails internally (known finding F2 apart)
-  (o.e.k \in {"Cmd", "Connect", "Drop"}) => o.err = ABSENT
+C17f(g, o, g2) ==   \* no handler fails internally (known finding F2 apart); values SQLite cannot
+                    \* bind are not "well-formed commands with string-valued fields"
+  (o.e.k \in {"Cmd", "Connect", "Drop"} /\ o.e.m.mood \notin BadMoods) => o.err = ABSENT
 
 (***************************************************************************)
 (* C18  (single-run part) list answers with exactly the live nameplates    *)
@@ -611,7 +626,7 @@ F6sig(g, o) ==
 ClauseIds == <<"C01.a", "C01.b", "C02.a", "C02.b", "C03.a", "C03.b", "C03.c", "C03.d",
                "C04.a", "C04.b", "C04.c", "C05.a", "C05.b", "C05.c", "C05.keep", "C06.frame",
                "C07.a", "C07.b", "C07.c", "C07.d", "C07.e", "C08.a", "C08.b", "C08.c", "C08.d",
-               "C09.a", "C09.b", "C10.a", "C10.b", "C10.c", "C12.a", "C12.b",
+               "C09.a", "C09.b", "C10.a", "C10.b", "C10.c", "C12.a", "C12.b", "C12.c",
                "C13.a", "C13.b", "C13.c", "C15.a", "C15.b", "C15.c", "C16.a", "C16.b", "C16.c",
                "C17.a", "C17.b", "C17.c", "C17.d", "C17.e", "C17.f", "C17.g", "C18.a">>
 
@@ -630,7 +645,7 @@ Holds(p, g, o, g2) ==
     [] p = "C08.c" -> C08c(g, o, g2) [] p = "C08.d" -> C08d(g, o, g2)
     [] p = "C09.a" -> C09a(g, o, g2) [] p = "C09.b" -> C09b(g, o, g2)
     [] p = "C10.a" -> C10a(g, o, g2) [] p = "C10.b" -> C10b(g, o, g2) [] p = "C10.c" -> C10c(g, o, g2)
-    [] p = "C12.a" -> C12a(g, o, g2) [] p = "C12.b" -> C12b(g, o, g2)
+    [] p = "C12.a" -> C12a(g, o, g2) [] p = "C12.b" -> C12b(g, o, g2) [] p = "C12.c" -> C12c(g, o, g2)
     [] p = "C13.a" -> C13a(g, o, g2) [] p = "C13.b" -> C13b(g, o, g2) [] p = "C13.c" -> C13c(g, o, g2)
     [] p = "C15.a" -> C15a(g, o, g2) [] p = "C15.b" -> C15b(g, o, g2) [] p = "C15.c" -> C15c(g, o, g2)
     [] p = "C16.a" -> C16a(g, o, g2) [] p = "C16.b" -> C16b(g, o, g2) [] p = "C16.c" -> C16c(g, o, g2)
@@ -658,7 +673,7 @@ PropClauses ==
    C05 |-> {"C05.a", "C05.b", "C05.c"}, C05keep |-> {"C05.keep"}, C06 |-> {"C06.frame"},
    C07 |-> {"C07.a", "C07.b", "C07.c", "C07.d", "C07.e"},
    C08 |-> {"C08.a", "C08.b", "C08.c", "C08.d"}, C09 |-> {"C09.a", "C09.b"},
-   C10 |-> {"C10.a", "C10.b", "C10.c"}, C12 |-> {"C12.a", "C12.b"},
+   C10 |-> {"C10.a", "C10.b", "C10.c"}, C12 |-> {"C12.a", "C12.b", "C12.c"},
    C13 |-> {"C13.a", "C13.b", "C13.c"}, C15 |-> {"C15.a", "C15.b", "C15.c"},
    C16 |-> {"C16.a", "C16.b", "C16.c"},
    C17 |-> {"C17.a", "C17.b", "C17.c", "C17.d", "C17.e", "C17.f", "C17.g"}, C18 |-> {"C18.a"}]
